@@ -93,6 +93,8 @@ class TimeEnv:
         self.rows = rows
         self.reads = []  # SymInt instants in order
         self.cache = {}
+        self.owner = None
+        self.read_owner = []
         self.ups = {}  # read index -> SymBool 'fraction >= .5' (time.time() reads)
         self.clock_lo, self.clock_hi = clock_lo, clock_hi
         self.zi = None
@@ -141,6 +143,7 @@ class TimeEnv:
                              (t <= self.hi).t if isinstance(t <= self.hi, SymBool) else z3.BoolVal(bool(t <= self.hi))))
         p.constrain(z3.And(*cs))
         self.reads.append(t)
+        self.read_owner.append(self.owner)
         return t
 
     # ---- zone
